@@ -47,6 +47,8 @@ def eq_coverage(repo, c, model, f):
     if model.name == "Bag":
         dict_fields.append("values")
     ft = FieldTaint(repo, c, f, [sn, on], dict_fields)
+    ft.project_slots = {s for s, k in model.slot_kind.items() if k == "single"}
+    ft._fix()
     pm = {}
     for n in ast.walk(f.node):
         for ch in ast.iter_child_nodes(n):
@@ -134,9 +136,9 @@ def run(repo, rep, tier):
                             f"equality: an extra trailing element on one side is invisible to ==",
                             stmt=f"{fld}: zip without length check")
             elif d and d["part"]:
-                rep.finding("R9.1", f, d["node"], f"field `{fld}` is compared only over a slice (`{norm(d['node'])[:80]}`): the elements the "
-                            f"slice drops are invisible to ==, so two aggregators that differ there compare equal",
-                            stmt=f"{fld}: compared over a slice only")
+                rep.finding("R9.1", f, d["node"], f"field `{fld}` is compared only in part - over a slice, or through one attribute of the "
+                            f"child (`{norm(d['node'])[:80]}`): what the slice/projection drops is invisible to ==, so two aggregators that "
+                            f"differ there compare equal", stmt=f"{fld}: compared over a slice only")
             elif d and d["keys"]:
                 rep.finding("R9.1", f, d["node"], f"field `{fld}` is a dict and only its keys are compared (iterating/sorting "
                             f"a dict yields keys): two aggregators with different contents in the same bins compare equal",
@@ -468,24 +470,59 @@ def rule_numeq(repo, rep, r5):
     # (c) tolerances only widen: every return that is control dependent on a test of a tolerance is reached only through positive
     #     tests (`tol > 0`, on either edge) and, where a tolerance is positive on the path, returns `abs(x - y) <= <bound of those tolerances>`
     TOLS = {"relativeTolerance", "absoluteTolerance"}
+    from ..astutil import walk_local_stmt
+    local_defs = {}
+    for st in walk_local_stmt(f.node):
+        if isinstance(st, ast.Assign) and len(st.targets) == 1 and isinstance(st.targets[0], ast.Name):
+            local_defs.setdefault(st.targets[0].id, []).append(st.value)
+
+    def expand(e, depth=0):
+        """locals with one definition stand for it (`tolerance = max(...)`)"""
+        import copy
+
+        class X(ast.NodeTransformer):
+            def visit_Name(self, nm):
+                if isinstance(nm.ctx, ast.Load) and nm.id not in (x, y) and len(local_defs.get(nm.id, [])) == 1 and depth < 4:
+                    return expand(local_defs[nm.id][0], depth + 1)
+                return nm
+        return X().visit(copy.deepcopy(e))
+
+    def tol_names(e):
+        return {a.id for a in ast.walk(expand(e)) if isinstance(a, ast.Name)} & TOLS
 
     def positive_test(cn):
+        """`E > 0` / `0 < E` for a tolerance or a value derived from the tolerances: the text of (expanded) E, else None"""
         if not (isinstance(cn, ast.Compare) and len(cn.ops) == 1):
             return None
         a, op, b = cn.left, cn.ops[0], cn.comparators[0]
-        if isinstance(a, ast.Name) and a.id in TOLS and txt(b) in ("0.0", "0") and isinstance(op, ast.Gt):
-            return a.id
-        if isinstance(b, ast.Name) and b.id in TOLS and txt(a) in ("0.0", "0") and isinstance(op, ast.Lt):
-            return b.id
+        if txt(b) in ("0.0", "0") and isinstance(op, ast.Gt) and tol_names(a):
+            return txt(expand(a))
+        if txt(a) in ("0.0", "0") and isinstance(op, ast.Lt) and tol_names(b):
+            return txt(expand(b))
         return None
+
+    def nonneg_given(e, positives):
+        """e >= 0 whenever the expressions in `positives` are > 0 (sums, products, max of such terms; abs(...); the terms themselves)"""
+        t = txt(e)
+        if t in positives:
+            return True
+        if isinstance(e, ast.Constant) and isinstance(e.value, (int, float)) and e.value >= 0:
+            return True
+        if isinstance(e, ast.Call) and isinstance(e.func, ast.Name) and e.func.id == "abs":
+            return True
+        if isinstance(e, ast.Call) and isinstance(e.func, ast.Name) and e.func.id == "max" and e.args:
+            # max(a, b) built from tolerances: every tolerance in it must be known positive, or the whole max is
+            return all(nonneg_given(a, positives) for a in e.args)
+        if isinstance(e, ast.BinOp) and isinstance(e.op, (ast.Add, ast.Mult)):
+            return nonneg_given(e.left, positives) and nonneg_given(e.right, positives)
+        return False
 
     tcd = g.transitive_control_deps()
     ntol = 0
     for n in g.nodes:
         if not (n.kind == "stmt" and isinstance(n.ast, ast.Return)):
             continue
-        deps_t = [(g.nodes[tid], lab) for (tid, lab) in tcd[n.id] if g.nodes[tid].kind == "test"
-                  and {a.id for a in ast.walk(g.nodes[tid].ast) if isinstance(a, ast.Name)} & TOLS]
+        deps_t = [(g.nodes[tid], lab) for (tid, lab) in tcd[n.id] if g.nodes[tid].kind == "test" and tol_names(g.nodes[tid].ast)]
         if not deps_t:
             continue
         good = True
@@ -493,11 +530,13 @@ def rule_numeq(repo, rep, r5):
         for tn, lab in deps_t:
             conj = tn.ast.values if isinstance(tn.ast, ast.BoolOp) and isinstance(tn.ast.op, ast.And) else [tn.ast]
             names = [positive_test(cn) for cn in conj]
-            if any(x is None for x in names):
-                good = False
-            elif lab == "T":
+            if lab != "T":
+                continue     # the test failed on this path
+            if any(nm is None for nm in names):
+                good = False     # taken on the true side of a tolerance test that is not a conjunction of `tol > 0` tests
+            else:
                 pos_on_path |= set(names)
-        if not pos_on_path:
+        if good and not pos_on_path:
             continue         # reached with all tested tolerances non-positive: decided by the zero-tolerance table above
         ntol += 1
         widening = False
@@ -505,19 +544,21 @@ def rule_numeq(repo, rep, r5):
         if isinstance(v, ast.Compare) and len(v.ops) == 1:
             dist = (f"abs({x}-{y})", f"abs({y}-{x})")
             bound = None
-            if isinstance(v.ops[0], ast.LtE) and txt(v.left) in dist:
+            if isinstance(v.ops[0], ast.LtE) and txt(expand(v.left)) in dist:
                 bound = v.comparators[0]
-            elif isinstance(v.ops[0], ast.GtE) and txt(v.comparators[0]) in dist:
+            elif isinstance(v.ops[0], ast.GtE) and txt(expand(v.comparators[0])) in dist:
                 bound = v.left
             if bound is not None:
-                used = {a.id for a in ast.walk(bound) if isinstance(a, ast.Name)} & TOLS
-                widening = used <= pos_on_path
+                be = expand(bound)
+                # the bound is the tested-positive value itself, or is built only from tolerances tested positive on this path
+                widening = txt(be) in pos_on_path or (tol_names(be) <= pos_on_path and nonneg_given(be, pos_on_path | {f"abs({x})", f"abs({y})"}))
         ok = good and widening
         r5.ob(ok, f"numeq: return under positive {sorted(pos_on_path)}: `{norm(n.stmt)[:60]}`")
         if not ok:
             rep.finding("R9.5", f, n.stmt, "a return reached with a positive tolerance is not of the guarded widening form "
                         "`abs(x - y) <= <bound built from the tolerances tested positive on this path>`: a positive tolerance could "
-                        "narrow the comparison or a zero tolerance could take part in it", stmt=f"tolerance return {norm(n.stmt)[:60]}")
+                        "narrow the comparison, the comparison could be one-sided (== no longer symmetric), or a zero tolerance could "
+                        "take part in it", stmt=f"tolerance return {norm(n.stmt)[:60]}")
     if ntol == 0:
         r5.ob(True, "numeq: no tolerance branches")
     # module-level defaults are zero
